@@ -179,8 +179,19 @@ def run_jump(i, extra):
         # are launched after the clock was stepped past the execution deadline
         inner = {"Type": "Map", "ItemsPath": "$.items", "MaxConcurrency": rng.choice([1, 2]), "End": True,
                  "ItemProcessor": {"StartAt": "W", "States": {"W": {"Type": "Wait", "Seconds": rng.choice([1, 2]), "End": True}}}}
-        place = rng.choice(["top", "parallel", "map"])
-        if place == "top":
+        place = rng.choice(["top", "parallel", "map", "deep", "deep"])
+        if place == "deep":
+            # fan-outs nested three deep whose innermost Waits all expire at one instant after the clock was stepped
+            # past the deadline: several events two and more levels below the state that fails first are in flight
+            leaf = {"StartAt": "W", "States": {"W": {"Type": "Wait", "Seconds": 2, "Next": "X"},
+                                               "X": {"Type": "Pass", "End": True}}}
+            q = rng.choice([{"Type": "Parallel", "End": True, "Branches": [leaf, leaf]},
+                            {"Type": "Map", "ItemsPath": "$.items", "End": True, "ItemProcessor": leaf}])
+            mid = {"Type": "Parallel", "End": True, "Branches": [{"StartAt": "Q", "States": {"Q": q}},
+                                                                 {"StartAt": "Q2", "States": {"Q2": q}}]}
+            d = {"StartAt": "O", "States": {"O": {"Type": "Map", "ItemsPath": "$.groups", "End": True, "ItemProcessor": {
+                "StartAt": "P", "States": {"P": mid}}}}}
+        elif place == "top":
             d = {"StartAt": "M", "States": {"M": inner}}
         elif place == "parallel":
             d = {"StartAt": "P", "States": {"P": {"Type": "Parallel", "End": True, "Branches": [
